@@ -78,7 +78,7 @@ type OpArgs struct {
 	NoTags     bool       `json:"no_tags,omitempty"`
 	Extend     bool       `json:"extend,omitempty"`
 	Invalid    bool       `json:"invalid,omitempty"` // an argument klog must refuse (it would yield an invalid file)
-	Why        string     `json:"why,omitempty"` // what this operation was built to exercise
+	Why        string     `json:"why,omitempty"`     // what this operation was built to exercise
 }
 
 // EditFault changes a file between two commands.
@@ -94,6 +94,7 @@ type Op struct {
 	File     string             `json:"file"` // a.klg | b.klg | "" (default bookmark) | @name | missing.klg | adir
 	Args     OpArgs             `json:"args"`
 	Argv     []string           `json:"argv"`
+	ArgForm  int                `json:"arg_form,omitempty"` // spelling of the command line, see renderArgv
 	Tape     []int              `json:"tape,omitempty"`
 	MapTape  []int              `json:"map_tape,omitempty"`
 	MapOrder bool               `json:"map_order,omitempty"`
@@ -108,46 +109,83 @@ type Op struct {
 
 func (o *Op) mutating() bool { return mutatingCmd[o.Kind] }
 
+// follows: `klog today --follow` / `-f`, a process that runs until it is interrupted.
+func (o *Op) follows() bool {
+	return o.Kind == "today" && (containsArg(o.Argv, "--follow") || containsArg(o.Argv, "-f"))
+}
+
 func joinLines(ls []string) string { return strings.Join(ls, `\n`) }
 
 // renderArgv builds the command line. The file argument is a placeholder resolved by the executor.
+// ArgForm varies the spelling only (never the meaning): bit 0 short flags, bit 1 `--flag value` instead of
+// `--flag=value`, bit 2 flags after the positional arguments, bit 3 the command's alias, bit 4 flags in reverse order,
+// bit 5 (applied by resolveArgv) the file as a path relative to the working directory.
 func (o *Op) renderArgv() {
-	a := []string{o.Kind}
 	ar := &o.Args
+	form := o.ArgForm
+	short := map[string]string{"date": "d", "time": "t", "round": "r", "summary": "s", "resume": "R", "resume-nth": "N", "extend": "e"}
+	var flags [][]string
+	val := func(name, v string) {
+		if strings.HasPrefix(v, "-") || v == "" {
+			flags = append(flags, []string{"--" + name + "=" + v}) // a value that looks like a flag needs the `=` form
+			return
+		}
+		if sh, ok := short[name]; ok && form&1 != 0 {
+			flags = append(flags, []string{"-" + sh, v})
+			return
+		}
+		if form&2 != 0 {
+			flags = append(flags, []string{"--" + name, v})
+			return
+		}
+		flags = append(flags, []string{"--" + name + "=" + v})
+	}
+	sw := func(name string) {
+		if sh, ok := short[name]; ok && form&1 != 0 {
+			flags = append(flags, []string{"-" + sh})
+			return
+		}
+		flags = append(flags, []string{"--" + name})
+	}
 	switch ar.DateSel {
 	case "today":
-		a = append(a, "--today")
+		sw("today")
 	case "yesterday":
-		a = append(a, "--yesterday")
+		sw("yesterday")
 	case "tomorrow":
-		a = append(a, "--tomorrow")
+		sw("tomorrow")
 	case "explicit":
-		a = append(a, "--date="+ar.Date)
+		val("date", ar.Date)
 	}
 	if ar.Time != nil {
-		a = append(a, "--time="+ar.Time.Text)
+		val("time", ar.Time.Text)
 	}
 	if ar.Round != 0 {
-		a = append(a, fmt.Sprintf("--round=%dm", ar.Round))
+		val("round", fmt.Sprintf("%dm", ar.Round))
 	}
 	if ar.Summary != nil {
-		a = append(a, "--summary="+joinLines(ar.Summary))
+		val("summary", joinLines(ar.Summary))
 	}
 	if ar.Resume {
-		a = append(a, "--resume")
+		sw("resume")
 	}
 	if ar.ResumeNth != 0 {
-		a = append(a, fmt.Sprintf("--resume-nth=%d", ar.ResumeNth))
+		val("resume-nth", fmt.Sprint(ar.ResumeNth))
 	}
 	if ar.Should != "" {
-		a = append(a, "--should="+ar.Should)
+		if form&1 != 0 && o.Kind == "create" {
+			val("should-total", ar.Should) // the documented alias
+		} else {
+			val("should", ar.Should)
+		}
 	}
 	if ar.NoTags {
-		a = append(a, "--no-tags")
+		sw("no-tags")
 	}
 	if ar.Extend {
-		a = append(a, "--extend")
+		sw("extend")
 	}
+	var pos []string
 	if ar.Entry != nil {
 		text := ar.Entry.Value
 		if len(ar.Entry.Summary) > 0 {
@@ -164,18 +202,40 @@ func (o *Op) renderArgv() {
 		if strings.HasPrefix(text, "-") {
 			text = `\` + text // documented escape for negative durations
 		}
-		a = append(a, text)
+		pos = append(pos, text)
 	}
-	switch o.File {
-	case "":
-	default:
-		a = append(a, "$FILE:"+o.File)
+	if o.File != "" {
+		pos = append(pos, "$FILE:"+o.File)
+	}
+	if form&16 != 0 {
+		for i, j := 0, len(flags)-1; i < j; i, j = i+1, j-1 {
+			flags[i], flags[j] = flags[j], flags[i]
+		}
+	}
+	cmd := o.Kind
+	if form&8 != 0 {
+		switch cmd {
+		case "start":
+			cmd = "in"
+		case "stop":
+			cmd = "out"
+		}
+	}
+	a := []string{cmd}
+	if form&4 != 0 {
+		a = append(a, pos...)
+	}
+	for _, f := range flags {
+		a = append(a, f...)
+	}
+	if form&4 == 0 {
+		a = append(a, pos...)
 	}
 	o.Argv = a
 }
 
 // resolveArgv replaces the file placeholder.
-func resolveArgv(argv []string, root string) []string {
+func resolveArgv(argv []string, root string, relative bool) []string {
 	out := make([]string, len(argv))
 	for i, a := range argv {
 		if strings.HasPrefix(a, "$FILE:") {
@@ -184,6 +244,9 @@ func resolveArgv(argv []string, root string) []string {
 				out[i] = name
 			} else {
 				out[i] = root + "/" + name
+				if relative {
+					out[i] = "./" + name // the working directory is the scratch root
+				}
 			}
 		} else {
 			out[i] = a
